@@ -39,5 +39,27 @@ impl<T> VecDeque<T> {
     while i < self.n { if f(self.a[i].as_ref().unwrap()) { i += 1; } else { let _ = self.remove(i); } }
   }
   pub(crate) fn front(&self) -> Option<&T> { if self.n == 0 { None } else { self.a[0].as_ref() } }
+  // concrete iterator types without a destructor (an opaque `impl Iterator` would extend the borrow over the whole
+  // `if let` that consumes it, which the code under contract does not tolerate)
+  pub(crate) fn iter<'a>(&'a self) -> std::iter::Map<std::slice::Iter<'a, Option<T>>, fn(&'a Option<T>) -> &'a T> {
+    fn un<'b, U>(o: &'b Option<U>) -> &'b U { o.as_ref().unwrap() }
+    self.a[..self.n].iter().map(un::<T> as fn(&'a Option<T>) -> &'a T)
+  }
+  pub(crate) fn iter_mut<'a>(&'a mut self) -> std::iter::Map<std::slice::IterMut<'a, Option<T>>, fn(&'a mut Option<T>) -> &'a mut T> {
+    fn un<'b, U>(o: &'b mut Option<U>) -> &'b mut U { o.as_mut().unwrap() }
+    let n = self.n;
+    self.a[..n].iter_mut().map(un::<T> as fn(&'a mut Option<T>) -> &'a mut T)
+  }
+  /// `drain(..)` only (the whole queue, front to back)
+  pub(crate) fn drain(&mut self, _all: std::ops::RangeFull) -> std::vec::IntoIter<T> {
+    let mut out = Vec::new();
+    while let Some(x) = self.pop_front() { out.push(x); }
+    out.into_iter()
+  }
+}
+impl<'a, T> IntoIterator for &'a VecDeque<T> {
+  type Item = &'a T;
+  type IntoIter = std::vec::IntoIter<&'a T>;
+  fn into_iter(self) -> Self::IntoIter { let mut v = Vec::new(); let mut i = 0; while i < self.n { v.push(self.a[i].as_ref().unwrap()); i += 1; } v.into_iter() }
 }
 impl<T> std::ops::Index<usize> for VecDeque<T> { type Output = T; fn index(&self, i: usize) -> &T { assert!(i < self.n); self.a[i].as_ref().unwrap() } }
